@@ -665,6 +665,29 @@ func (u *Unit) indexAddr(st *State, fr *Frame, in *ssa.IndexAddr) Val {
 			// the list content unknown, see store)
 			c := u.keyedCell(fmt.Sprintf("list%d[%d+%s]", xv.List.ID, xv.LOff, idx.S), xv.Elem, true, xv.List.Sym)
 			u.symIdxCells[c.ID] = xv.List
+			if _, isPtr := xv.Elem.Underlying().(*types.Pointer); isPtr && xv.Len.IsInt && xv.Len.I.IsInt64() && xv.Len.I.Int64() >= 1 && xv.Len.I.Int64() <= 16 && u.specMode == 0 {
+				// a short list of pointers: the element at a symbolic position
+				// is nil exactly when the element at that position is
+				if _, done := st.cells[c.ID]; !done {
+					if pv, ok := u.freshVal(st, xv.Elem, "symelem", false).(PtrV); ok {
+						n := int(xv.Len.I.Int64())
+						var nilAt *Term = TFalse
+						okAll := true
+						for i := n - 1; i >= 0; i-- {
+							ev, ok := u.loadCell(st, u.listCell(xv.List, xv.LOff+i)).(PtrV)
+							if !ok {
+								okAll = false
+								break
+							}
+							nilAt = Ite(Eq(idx, IntLit(int64(i))), ev.Nil, nilAt)
+						}
+						if okAll {
+							u.assume(Eq(pv.Nil, nilAt))
+							st.cells[c.ID] = pv
+						}
+					}
+				}
+			}
 			return PtrV{Nil: TFalse, Cell: c, Elem: xv.Elem}
 		}
 		return PtrV{Nil: TFalse, Cell: u.listCell(xv.List, xv.LOff+int(idx.I.Int64())), Elem: xv.Elem}
